@@ -1,0 +1,38 @@
+//go:build verif
+
+// Contracts for package spacestorage, checked by /verif (govc). Comment-only.
+package spacestorage
+
+// ---------------------------------------------------------------------------------------------
+// C10: creating a space storage is all-or-nothing: one write transaction, every part (state, heads,
+// ACL storage, settings tree storage) is created with the transaction's context, the transaction is
+// committed exactly when every part succeeded and rolled back otherwise, and a commit error is
+// returned.
+//@ package github.com/anyproto/any-sync/commonspace/headsync/statestorage
+//@ func CreateTx
+//@   modifies nothing
+//@   requires [write_inside_tx] ctx == txCtx(curTx)
+//@   ensures result1 == nil ==> result0 != nil
+//@ package github.com/anyproto/any-sync/commonspace/headsync/headstorage
+//@ func New
+//@   modifies nothing
+//@   requires [write_inside_tx] ctx == txCtx(curTx)
+//@   ensures result1 == nil ==> result0 != nil
+//@ package github.com/anyproto/any-sync/commonspace/object/acl/list
+//@ func CreateStorageTx
+//@   modifies kinds none
+//@   requires [ctx_is_tx] ctx == txCtx(curTx)
+//@   ensures result1 == nil ==> result0 != nil
+//@ package github.com/anyproto/any-sync/commonspace/object/tree/objecttree
+//@ func CreateStorageTx
+//@   modifies kinds none
+//@   requires [ctx_is_tx] ctx == txCtx(curTx)
+//@   ensures result1 == nil ==> result0 != nil
+//@ package github.com/anyproto/any-sync/commonspace/spacestorage
+//@ func Create
+//@   requires store != nil && payload.SpaceHeaderWithId != nil && payload.AclWithId != nil && payload.SpaceSettingsWithId != nil
+//@   requires !txOpened && !txCommitted && !txRolledBack && !txCommitCalled
+//@   ensures [ok_implies_committed]      err == nil ==> txCommitted
+//@   ensures [err_implies_not_committed] err != nil ==> !txCommitted
+//@   ensures [commit_xor_rollback]       !(txCommitCalled && txRolledBack)
+//@   ensures [closed]                    txOpened ==> txCommitCalled || txRolledBack
